@@ -2,14 +2,11 @@ package ledger
 
 import "pgregory.net/rapid"
 
-type CrashPlan struct{}
 type CorruptOp struct{}
 type AtomPlan struct{}
 
-func drawC02(rt *rapid.T, p *Plan, tier string) *Plan { return p }
 func drawC04(rt *rapid.T, p *Plan, tier string) *Plan { return p }
 func drawC06(rt *rapid.T, p *Plan, tier string) *Plan { return p }
-func (r *run) runC02()                               {}
 func (r *run) runC04()                               {}
 func (r *run) runC06()                               {}
 func (r *run) checkC11(n *Node, h uint32)            {}
